@@ -898,10 +898,63 @@ pub fn two_register_bitflip_model() -> Model {
     m
 }
 
+/// Instruction menu of `gen_access_kinds` (amd64 machine code at the crash site): what the instruction analysis
+/// sees is a read, a write, a read-modify-write, two accesses, an implicit stack access, or no memory access.
+pub const ACCESS_INSTRS: [(&str, &[u8]); 10] = [
+    ("mov al,[rsp]", &[0x8a, 0x04, 0x24]),
+    ("mov [rsp],al", &[0x88, 0x04, 0x24]),
+    ("add dword [rsp],1", &[0x83, 0x04, 0x24, 0x01]),
+    ("inc dword [rsp]", &[0xff, 0x04, 0x24]),
+    ("xchg [rsp],eax", &[0x87, 0x04, 0x24]),
+    ("movsb", &[0xa4]),
+    ("push rax", &[0x50]),
+    ("pop rax", &[0x58]),
+    ("cmp byte [rax+rcx],0", &[0x80, 0x3c, 0x08, 0x00]),
+    ("nop", &[0x90]),
+];
+/// Every instruction of `ACCESS_INSTRS` x rsp from `RSP_MENU` x exception rendering {Windows AV read, Windows AV
+/// write, Linux SIGSEGV, Mac EXC_BAD_ACCESS} x general-purpose registers {0, a mapped address} x memory map
+/// {none, one rw page as MemoryInfoList, as LinuxMaps}, on amd64.
+pub fn gen_access_kinds(_tier: Tier) -> Gen {
+    use md::PlatformId as P;
+    let radices = vec![ACCESS_INSTRS.len() as u64, RSP_MENU.len() as u64, 4, 2, 3];
+    let len = crate::core::product(&radices);
+    let model = move |idx: u64| {
+        let d = crate::core::unrank(idx, &radices);
+        let (pid, rec): (u32, Rec) = match d[2] {
+            0 => (P::VER_PLATFORM_WIN32_NT as u32, (0xC000_0005, 0, 2, [0, 0x10010, 0])),
+            1 => (P::VER_PLATFORM_WIN32_NT as u32, (0xC000_0005, 0, 2, [1, 0x10010, 0])),
+            2 => (P::Linux as u32, (11, 1, 0, [0, 0, 0])),
+            _ => (P::MacOs as u32, (1, 1, 0, [0, 0, 0])),
+        };
+        let mut m = Model::new(CpuK::Amd64, pid);
+        add_threads(&mut m, &[1], 0);
+        m.threads[0].ip = 0x4000_2000;
+        m.modules.push(app_module());
+        m.maps = match d[4] {
+            0 => MapsM::None,
+            1 => MapsM::Info(vec![(0x10000, 0x1000, INFO_PERMS[4])]),
+            _ => MapsM::Linux(vec![(0x10000, 0x10fff, "rw")]),
+        };
+        let mut x = exc_of(rec, 1, 0x10010, 1);
+        x.ctx_ip = 0x4000_2000;
+        x.ctx_sp = RSP_MENU[d[1] as usize];
+        let mut code = ACCESS_INSTRS[d[0] as usize].1.to_vec();
+        code.resize(16, 0x90);
+        m.code = Some((0x4000_2000, code));
+        m.gpr_fill = Some(if d[3] == 0 { 0 } else { 0x10010 });
+        m.exc = Some(x);
+        m
+    };
+    Gen { name: "access-kinds", len, model: Arc::new(model) }
+}
+
 pub const TID_PATTERNS: [&[u32]; 7] = [&[], &[1], &[1, 2], &[2, 2], &[1, 2, 7], &[5, 1, 5], &[1, 2, 2, 7]];
 pub const EXC_TIDS: [Option<u32>; 6] = [None, Some(1), Some(2), Some(5), Some(7), Some(99)];
 /// Breakpad info menu: absent, both, dump thread only, requesting thread only, flags off, dump == requesting
-pub const BP_MENU: [Option<(u32, u32, u32)>; 6] = [None, Some((3, 2, 1)), Some((1, 1, 7)), Some((2, 0, 2)), Some((0, 1, 2)), Some((3, 1, 1))];
+// two entries carry validity bits beyond the two defined ones (a writer's future flags): only bits 0 and 1 say
+// which ids are valid
+pub const BP_MENU: [Option<(u32, u32, u32)>; 6] = [None, Some((3, 2, 1)), Some((0x11, 1, 7)), Some((2, 0, 2)), Some((0, 1, 2)), Some((0x8000_0003, 1, 1))];
 
 fn name_for_tid(t: u32) -> Option<String> {
     if t == 2 {
